@@ -1,6 +1,7 @@
 import ExprModel.Drv.Arith
 import ExprModel.Drv.Code
 import ExprModel.Drv.Spec
+import ExprModel.Drv.Wf
 /-
 The model driver: one request per line on stdin (an S-expression `(tag arg…)`), one response per line
 on stdout.  Core-only (no Mathlib, no proof modules), so it links as a `lean_exe` and keeps building
@@ -9,7 +10,7 @@ when a proof breaks.  Each `ExprModel/Drv/*.lean` exports a handler table; add y
 open ExprModel
 
 def handlers : List (String × (List Sexp → Sexp)) :=
-  Drv.arithHandlers ++ Drv.codeHandlers ++ Drv.specHandlers
+  Drv.arithHandlers ++ Drv.codeHandlers ++ Drv.specHandlers ++ Drv.wfHandlers
 
 def dispatch (req : Sexp) : Sexp :=
   match req with
